@@ -933,6 +933,73 @@ def parse_spine_contract():
     return c_
 
 
+# ----------------------------------------------- construction site: xlsx row trimming --
+XLSX = "sharepoint2text/parsing/extractors/ms_modern/xlsx_extractor.py"
+CELL_NE = fun("xlsx_cell_non_empty", ext_sort("XCell"), B)      # _is_cell_non_empty(value) (assumed pure; its definition is C02's)
+
+
+def any_true(seq: VSeq):
+    """any(seq) for a sequence of booleans: some element is true (one shape for the code's `any(...)` and for the spec)"""
+    j = z3.Int("j!any")
+    return z3.Exists([j], z3.And(j >= 0, j < seq.length, seq.elem(j).t))
+
+
+def p_rows():
+    def mk(ex, st, name):
+        n = z3.Int(f"{name}.len")
+        rl = z3.Function(f"{name}.rowlen", I, I)
+        cell = z3.Function(f"{name}.cell", I, I, ext_sort("XCell"))
+
+        def row(k):
+            return VSeq(z3.If(rl(k) < 0, 0, rl(k)), lambda j, k=k: VExt("XCell", cell(k, j)), ("obj", "XCell"))
+        return [(n >= 0, VSeq(n, row, "row"))]
+    return Maker(mk, desc="list of rows of cell values (symbolic sizes)")
+
+
+def row_non_empty(row: VSeq):
+    return any_true(VSeq(row.length, lambda j: VBool(CELL_NE(row.elem(j).t)), "bool"))
+
+
+def last_data_row_contract():
+    """_find_last_data_row: the 1-based number of the LAST row holding a non-empty cell, 0 when there is none -- every row that
+    carries data survives the trimming (a trimmed data row is cell text in no unit)."""
+    def rows_of(c):
+        return c.args["rows"]
+
+    def ens(c):
+        rows = rows_of(c)
+        n = rows.length
+        r = ops.int_term(c.result)
+        k = z3.Int("k!ldr")
+        later_empty = z3.ForAll([k], z3.Implies(z3.And(k >= r, k < n), z3.Not(row_non_empty(rows.elem(k)))))
+        return z3.And(r >= 0, r <= n, later_empty, z3.Implies(r > 0, row_non_empty(rows.elem(r - 1))))
+
+    def inv(lc):
+        rows = lc.entry.lookup("rows")
+        n = rows.length
+        k = z3.Int("k!ldi")
+        return Conj([("rows-behind-are-empty", z3.ForAll([k], z3.Implies(z3.And(k > n - 1 - lc.i, k < n), z3.Not(row_non_empty(rows.elem(k))))))])
+
+    spec = LoopSpec(inv=inv, label="rows")
+    c_ = FnContract(
+        target=f"{XLSX}::_find_last_data_row",
+        params=[("rows", p_rows())],
+        ensures=[("result-is-the-last-row-with-data-or-0", ens)],
+        raises=[],
+        loops={},
+        note="trailing empty rows only are trimmed",
+    )
+    c_.loop_finder = lambda ex, fnode, node: with_counters(spec, node) if isinstance(node, ast.For) and isinstance(node.iter, ast.Call) \
+        and ast.unparse(node.iter.func) in ("range", "reversed") else None
+    c_.loop_obligations = [("inv-init", "rows.rows-behind-are-empty"), ("inv-preserve", "rows.rows-behind-are-empty")]
+    return c_
+
+
+def cell_non_empty_assumed():
+    return FnContract(target=f"{XLSX}::_is_cell_non_empty", params=[("val", p_ext("XCell"))],
+                      returns=lambda c: VBool(CELL_NE(c.args["val"].t)), assumed=True)
+
+
 # ------------------------------------------------------------ opaque members --
 def install_opaque():
     OP = X.UnitsExecutor.OPAQUE
@@ -1006,6 +1073,21 @@ class C03Executor(ET.ETreeMixin, X.UnitsExecutor):
                 if len(pr) == 1 and pr[0][0] is st:
                     return AUnit(pr[0][1], pr[0][2])
         return v
+
+    def b_range(self, st, args, kwargs, node):
+        # range(a, b, -1) with symbolic bounds: a, a-1, ..., b+1
+        if len(args) == 3 and isinstance(args[2], VInt) and args[2].const() == -1 and (args[0].const() is None or args[1].const() is None):
+            a, b = ops.int_term(args[0]), ops.int_term(args[1])
+            return [(st, VSeq(z3.If(a - b > 0, a - b, 0), lambda k, a=a: VInt(a - k), "int"))]
+        return super().b_range(st, args, kwargs, node)
+
+    def b_any(self, st, args, kwargs, node):
+        v = args[0]
+        if isinstance(v, VRef) and st.obj(v.ref).kind == "alist":
+            v = st.obj(v.ref).data
+        if isinstance(v, VSeq) and isinstance(v.elem(K), VBool):
+            return [(st, VBool(any_true(v)))]
+        return super().b_any(st, args, kwargs, node)
 
     def b_map(self, st, args, kwargs, node):
         """map(f, xs) over a symbolic sequence == (f(x) for x in xs) when f is pure and single-valued there"""
@@ -1296,6 +1378,8 @@ def contracts(reg):
     out.append(flush_page_contract())
     ET.install(reg)
     out.append(parse_spine_contract())
+    out.append(last_data_row_contract())
+    out.append(cell_non_empty_assumed())
     # e-mail glue shared with C16 (message boundaries and the body text that becomes the unit are part of both properties): the
     # mailbox splitter and the .eml body assembly are verified here under C16's contracts (with C16's
     # executor, see EXECUTOR); C16's remaining contracts are only registered, so that calls inside these functions use them
